@@ -158,6 +158,21 @@ def k_history(first, rest, nprog):
         return run_history(sel, nprog)
 
 
+def sub_alphabet(nprog):
+    """indices of the actions that involve only options object 0, the default-options call and the
+    reseed (longer histories are explored over this smaller alphabet)"""
+    return [i for i, a in enumerate(step_kinds(nprog)) if not (a[0] in ("create", "set", "convert") and a[1] == 1)]
+
+
+def k_history_sub(first, rest, nprog):
+    sub = sub_alphabet(nprog)
+    sel = [sub[first]]
+    for x in rest:
+        sel.append(sub[rt.pick_bisect(x, len(sub))])
+    with rt.NoTracing():
+        return run_history(sel, nprog)
+
+
 def reference_worker(argv):
     """python -m vf.kernels.c10k P UNPARSER WRAPPER IFSTYLE  -> alpha-normalised text (fresh process)"""
     p = int(argv[1])
